@@ -1,6 +1,11 @@
 #!/bin/sh
 # builds the verification engines from files on disk only (offline)
 set -e
-cd "$(dirname "$0")/engine"
+ROOT="$(cd "$(dirname "$0")" && pwd)"
 export CARGO_NET_OFFLINE=true
-cargo build --release --offline 2>&1 | tail -3
+mkdir -p "$ROOT/out"
+cd "$ROOT/engine" && cargo build --release --offline 2>&1 | tail -2
+cd "$ROOT/engine-rt" && for f in rt_tokio rt_async rt_smol; do cargo build --release --offline --features $f --target-dir target/$f 2>&1 | tail -1; done
+# warm the type-check engine's target dir (dependencies of the generated crates)
+cd "$ROOT" && python3 engine-typeck/typeck.py warm >/dev/null 2>&1 || true
+echo "setup done"
